@@ -36,6 +36,7 @@ Lemma Forall2_impl {A B} (R R' : A -> B -> Prop) l l' : (forall a b, R a b -> R'
 Proof. intros H HF. induction HF; constructor; auto. Qed.
 
 Section Shift.
+  Variable eaok : amap -> Prop.
   Variable okfn : ident -> Prop.
   Variables n0 gb1 kb1 gb2 kb2 : N.
   Hypothesis Hbase1 : n0 <= gb1.
@@ -74,7 +75,7 @@ Section Shift.
   Definition RS (n : N) (st1 st2 : list thunk) : Prop :=
     exists ts, st1 = S1 ++ ts /\ st2 = S2 ++ map (thren sg sl) ts /\ acyc n ts.
   Definition RD (n m : N) (X1 X2 l1 l2 : list lstmt) : Prop :=
-    exists es, l1 = X1 ++ es /\ l2 = X2 ++ map (lsren sg sl) es /\ Forall (lsall okfn (Dn n) (Lm m)) es.
+    exists es, l1 = X1 ++ es /\ l2 = X2 ++ map (lsren sg sl) es /\ Forall (lsall eaok okfn (Dn n) (Lm m)) es.
   Definition RLoc (n m : N) (a b : varmap lvalue) : Prop := b = llren sg sl a /\ llall okfn (Dn n) (Lm m) a.
   Definition RP (n : N) (a b : list value) : Prop := exists ps, a = PA1 ++ ps /\ b = PA2 ++ map vr ps /\ Forall (vall (Dn n)) ps.
   Definition R (s1 s2 : lstate) : Prop :=
@@ -271,15 +272,15 @@ Section Shift.
   Qed.
 
   (* pushing a deferred statement *)
-  Lemma RD_push n m X1 X2 l1 l2 st : RD n m X1 X2 l1 l2 -> lsall okfn (Dn n) (Lm m) st -> RD n m X1 X2 (l1 ++ [st]) (l2 ++ [lsren sg sl st]).
+  Lemma RD_push n m X1 X2 l1 l2 st : RD n m X1 X2 l1 l2 -> lsall eaok okfn (Dn n) (Lm m) st -> RD n m X1 X2 (l1 ++ [st]) (l2 ++ [lsren sg sl st]).
   Proof.
     intros (es & -> & -> & H) Hst. exists (es ++ [st]). rewrite map_app, !app_assoc. split; [reflexivity|]. split; [reflexivity|].
     apply Forall_app. split; [exact H|]. constructor; [exact Hst|constructor].
   Qed.
-  Lemma bsim_push_lstmt n m st : lsall okfn (Dn n) (Lm m) st -> bsim n m (@PU unit unit) (push_lstmt st) (push_lstmt (lsren sg sl st)).
+  Lemma bsim_push_lstmt n m st : lsall eaok okfn (Dn n) (Lm m) st -> bsim n m (@PU unit unit) (push_lstmt st) (push_lstmt (lsren sg sl st)).
   Proof.
     intros Hst s1 s2 p HR Hn Hm. rdes HR. unfold push_lstmt, upd, modify.
-    assert (Hst' : lsall okfn (Dn (gn s1)) (Lm (sn s1)) st).
+    assert (Hst' : lsall eaok okfn (Dn (gn s1)) (Lm (sn s1)) st).
     { eapply lsall_impl; [| |exact Hst]; [intros i; apply Dn_mono, Hn|intros i; apply Lm_mono, Hm]. }
     destruct st; cbn [lsren]; (exists tt; eexists; split; [reflexivity|]; split; [|done_post; exact I]);
       apply R_intro; unfold gn, sn in *; fld; try assumption; apply RD_push; assumption.
@@ -414,6 +415,8 @@ Section Shift.
     Hypothesis Hcall : forall f, okfn f -> call_ok call f.
     (* graph nodes reachable through global variables are shared nodes *)
     Hypothesis Hglob : forall name v, globals_get glob name = Some v -> vall (fun i => i < n0) v.
+    (* the attributes an `edge` statement computes at execution time (the debug location attribute) are acceptable *)
+    Hypothesis Hea : forall l : loc, eaok (match c_loc_attr cfg with Some k => [(k, VStr (loc_text l))] | None => [] end).
 
     Lemma Dn_low n i : i < n0 -> Dn n i. Proof. unfold Dn. lia. Qed.
 
@@ -783,7 +786,7 @@ Section Shift.
       - destruct Hs as [Ha Hb]. eapply bsim_bind; [apply bsim_leval, Ha|]. intros a a' n2 m2 _ _ [-> Hla].
         eapply bsim_bind; [apply bsim_leval, Hb|]. intros b b' n3 m3 Hn3 Hm3 [-> Hlb]. cbv zeta.
         apply (bsim_push_lstmt n3 m3 (LSEdge a b _ (ll_ctx le))). cbn [lsall]. split; [eapply lvall_mono; [exact Hn3|exact Hm3|exact Hla]|]. split; [exact Hlb|].
-        destruct (c_loc_attr cfg); [constructor; [exact I|constructor]|constructor].
+        apply Hea.
       - destruct Hs as (Ha & Hb & Hat). eapply bsim_bind; [apply bsim_leval, Ha|]. intros a a' n2 m2 _ _ [-> Hla].
         eapply bsim_bind; [apply bsim_leval, Hb|]. intros b b' n3 m3 Hn3 Hm3 [-> Hlb].
         eapply bsim_bind; [apply bsim_lexec_attrs, Hat|]. intros outs outs' n4 m4 Hn4 Hm4 [Ho1 Ho2]. cbv beta in Ho1. rewrite Ho1.
